@@ -451,3 +451,10 @@ def run(prog: Program, res: Result) -> None:  # noqa: PLR0912, PLR0915
                 else:
                     res.fail("C07.R9", file=m.file, line=c.lineno, qualname=f"RenderNode.{nm}", construct=f"{nm}: {norm(c, 70)}", message="the render tag renders its partial without partial=True, block_scope=True: a break/continue in the partial is re-raised into the caller's loop (or block-scoped names leak)", what=what)
     res.floor("C07.R9", "render_with_context calls in RenderNode", n_rwc, 6)
+
+
+    # ------------------------------------------------------------------ R10 tag bindings are not visible to the tag's own arguments
+    res.rule("C07.R10", "names bound by a block construct are visible only inside that construct - not in the construct's own argument list: no argument expression is evaluated inside the `with context.extend/loop(…)` block that pushes the bindings (shared with C10.R5)")
+    from checks.shared import check_arguments_before_bindings
+
+    check_arguments_before_bindings(prog, res, "C07.R10")
